@@ -131,10 +131,10 @@ static void deinit(struct xcm_socket *s, bool owner)
 
     LOG_DEINIT(s);
 
-    ut_close_if_valid(us->fd);
-
     if (owner)
 	xpoll_fd_reg_del_if_valid(s->xpoll, us->fd_reg_id);
+
+    ut_close_if_valid(us->fd);
 
     if (owner && strlen(us->path) > 0) {
 	UT_SAVE_ERRNO;
